@@ -260,6 +260,7 @@ func runC16(seed uint64, enum bool) {
 				w.abstract("stop")
 				w.probe("stop")
 				stopped = true
+				w.fault("stop_midway")
 				w.spawn("stop", func() error { vp.p.Stop(); return nil })
 				w.step(time.Millisecond)
 			}
@@ -291,6 +292,9 @@ func runC16(seed uint64, enum bool) {
 	}
 	for k, v := range tr.outcomes {
 		w.res.Probes["out_"+k] += v
+		if k != "accept-ok" && k != "decline" {
+			w.res.Faults["peer_"+k] += v // every other outcome is an injected peer fault
+		}
 	}
 	w.res.Probes["max_open_in"] = tr.maxIn
 	w.res.Probes["max_open_out"] = tr.maxOut
